@@ -9,6 +9,7 @@ from cxxheaderparser.errors import CxxParseError
 from cxxheaderparser.lexer import LexerTokenStream
 from cxxheaderparser.simple import parse_string
 
+TECHNIQUE = "Lean 4: theorems about every outcome of the model's parse() wrapper (message format, totality, stray closing brace, lexer errors); Python-level exception escapes are searched by an oracle on the implementation (runtime behaviour, not provable on the model)"
 LEAN_TARGET = "CxxModel.Props.C06"
 THEOREMS = ["Cxx.C06_wrap_prefix_tok", "Cxx.C06_wrap_prefix_notok", "Cxx.C06_runParse_total", "Cxx.C06_stray_close_rejected",
             "Cxx.C06_lexer_error_wrapped", "Cxx.rules_supported", "Cxx.lexer_helpers_standard"]
